@@ -11,7 +11,7 @@ import numpy as np
 
 from mc import core
 from mc.core import Judgement, Recorder
-from mc.harness import AffineEnsemble, TableEvaluator, close, make_manager, validate
+from mc.harness import AffineEnsemble, TableEvaluator, close, make_manager, scipy_entry_points, validate
 
 PROPERTY = "C07"
 RULE = (
@@ -114,14 +114,11 @@ class Stack:
             for request in script:
                 self.answers.append(do(request, func, None, constraints))
 
-        orig = plugin.minimize, plugin.differential_evolution
-        plugin.minimize, plugin.differential_evolution = driver_min, driver_de
-        try:
-            self.opt.start(np.array(self.config.variables.initial_values))
-        except Exception as exc:  # noqa: BLE001
-            self.error = f"{type(exc).__name__}: {str(exc)[:150]}"
-        finally:
-            plugin.minimize, plugin.differential_evolution = orig
+        with scipy_entry_points(driver_min, driver_de):
+            try:
+                self.opt.start(np.array(self.config.variables.initial_values))
+            except Exception as exc:  # noqa: BLE001
+                self.error = f"{type(exc).__name__}: {str(exc)[:150]}"
         return self
 
     def evaluations(self) -> list[tuple[bytes, bool, bool]]:
